@@ -211,6 +211,18 @@ func (fb *FaultBackend) serve(c net.Conn, mode string, stall time.Duration) {
 		case "garbage":
 			fmt.Fprintf(c, "BLAH BLAH BLAH\r\n\x00\x01\x02\r\n\r\n")
 			return
+		case "status099":
+			// a well-formed answer whose status code no server may send (below 100): clients parse
+			// it; the body follows after a pause longer than the proxy's flush interval
+			fmt.Fprintf(c, "HTTP/1.1 099 Weird\r\nContent-Type: text/plain\r\nContent-Length: 5\r\n\r\n")
+			time.Sleep(400 * time.Millisecond)
+			fmt.Fprintf(c, "hello")
+			return
+		case "status000":
+			fmt.Fprintf(c, "HTTP/1.1 000 Zero\r\nContent-Type: text/plain\r\nTransfer-Encoding: chunked\r\n\r\n5\r\nhello\r\n")
+			time.Sleep(400 * time.Millisecond)
+			fmt.Fprintf(c, "0\r\n\r\n")
+			return
 		case "slow":
 			fmt.Fprintf(c, "HTTP/1.1 200 OK\r\nContent-Type: text/plain\r\nContent-Length: 1000\r\n\r\n0123456789")
 			time.Sleep(stall)
